@@ -664,11 +664,11 @@ func c19ExecConc(f []string) (string, []Fail) {
 		return res, fails
 	}
 	// the child died
-	stat("conc:child-died")
-	why, where := "no output", ""
 	if ctx.Err() != nil {
-		why = "no answer within the delay"
+		stat("conc:child-timeout")
+		return "hang", nil // a loaded machine is not a defect: the driver replays hangs alone with a longer delay
 	}
+	why, where := "no output", ""
 	for _, l := range strings.Split(stderr.String(), "\n") {
 		t := strings.TrimSpace(l)
 		if why == "no output" && (strings.HasPrefix(t, "fatal error:") || strings.HasPrefix(t, "panic:") || strings.HasPrefix(t, "unexpected fault") || strings.HasPrefix(t, "SIG")) {
@@ -681,6 +681,11 @@ func c19ExecConc(f []string) (string, []Fail) {
 			}
 		}
 	}
+	if why == "no output" { // killed from outside (memory pressure ...): no evidence against the code, run it here
+		stat("conc:child-killed")
+		return c19ExecConcHere(g, r, subs)
+	}
+	stat("conc:child-died")
 	res = guardT(180*time.Second, func() string {
 		alone := make([]string, len(subs))
 		for i, s := range subs {
@@ -931,7 +936,7 @@ func c19ConcGraphSub(rng *rand.Rand, big bool) string {
 	}
 	tl, nr := 150+rng.Intn(100), 14+rng.Intn(10)
 	if big {
-		tl, nr = 250+rng.Intn(250), 25+rng.Intn(25)
+		tl, nr = 180+rng.Intn(120), 16+rng.Intn(12)
 	}
 	tpl := c19RandSeq(rng, tl, "acgt", 0)
 	var reads [][]byte
@@ -1007,7 +1012,7 @@ func c19ConcIndexSub(rng *rand.Rand, big bool) string {
 func c19GenConc(rng *rand.Rand, tier string, emit func(string)) {
 	ncase, g, r, big := 4, 8, 6, false
 	if tier == "thorough" {
-		ncase, g, r, big = 10, 16, 10, true
+		ncase, g, r, big = 6, 16, 10, true
 	}
 	long := 6000
 	if big {
